@@ -46,6 +46,10 @@ func driveServerCase(c *ev.Collector, prop string, cs *srvCase, profile string, 
 		// a clause of the sibling property failed: visible in the evidence, judged by that property's check
 		v.Classes = append(v.Classes, "other-property-problem:"+p.Prop)
 	}
+	if len(v.Soft) > 0 && os.Getenv("VF_DEBUG_SOFT") != "" {
+		data, _ := json.Marshal(cs)
+		fmt.Printf("SOFT %v\n  history %s\n  server_err %q\n  case %s\n", v.Soft, v.Key, tr.SrvErr, data)
+	}
 	classes := append([]string{}, extra...)
 	classes = append(classes, v.Classes...)
 	for _, s := range v.Soft {
